@@ -754,7 +754,9 @@ class PortNamespace(collections.abc.MutableMapping, Port):
         :return: if invalid returns a string with the reason for the validation failure, otherwise None
         :rtype: typing.Optional[str]
         """
-        if port_values and not self.dynamic:
+        # (the dynamic flag first: this function calls itself for the leaf values of a dynamic namespace, and the truth value of such a
+        # value need not be defined -- arrays refuse to say)
+        if not self.dynamic and port_values:
             msg = f'Unexpected ports {port_values}, for a non dynamic namespace'
             return PortValidationError(msg, breadcrumbs_to_port((*breadcrumbs, self.name)))
 
